@@ -342,6 +342,11 @@ def h_epilogue(H):
         it.ctx.assume(z3.And(nproc >= 1, nproc <= nrec))
         conv.attrs["nsamples"] = SV(nproc)
         conv.attrs["sr"] = SObj(spikeglx.Reader, _raw=None, file_bin=ap, ns=SV(nrec))
+        # the same object may have been run before (a run that verified its output and then failed while compressing, forced again): the flag that run
+        # left says nothing about the files of this run.  (Only a check sets it, so it can only be set on an object that verifies.)
+        stale = z3.Bool("verified_flag_left_by_an_earlier_run")
+        it.ctx.assume(z3.Implies(stale, term(conv.post_check)))
+        conv.attrs["check_completed"] = SV(stale)
         fn = neuropixel.NP2Converter._process_NP24
         node, filename, before, loop, after = N.loop_parts(fn)
         it.session.note_function(fn)
